@@ -112,7 +112,7 @@ class Driver(hist.Driver):
                      ["R", "Decision Tree", "zef18", None, None]]
         # options handed to fit_model without the step list: they apply to
         # the current pipeline (rid "O:<rid>" = current steps + these options)
-        for rid in ("V3", "V4"):
+        for rid in ("V2", "V3", "V4"):
             self.ops.append(["F", {"preprocessing_options":
                                    REQUESTS[rid][1]}, "O:" + rid])
         # a client that keeps ONE steps list / options dictionary and edits
